@@ -48,6 +48,10 @@ pub struct Plan {
     /// the largest trees a node still builds); the edit is then applied to that block
     #[serde(default)]
     pub leaf_delta: Option<i64>,
+    /// the receiving nodes run under the key of the block's stated creator (the producer's own second
+    /// instance, or the producer after it lost the block): a block attributed to oneself gets no discount
+    #[serde(default)]
+    pub receiver_is_creator: bool,
 }
 
 fn gen(seed: u64, tier: Tier) -> Plan {
@@ -64,6 +68,7 @@ fn gen(seed: u64, tier: Tier) -> Plan {
             ntx: rng.range(2, 4) as usize,
             receiver: "synced".to_string(),
             leaf_delta: Some(if rng.chance(2, 3) { 0 } else { -1 }),
+            receiver_is_creator: false,
         };
     }
     Plan {
@@ -74,6 +79,7 @@ fn gen(seed: u64, tier: Tier) -> Plan {
         ntx: rng.range(2, 5) as usize,
         receiver: rng.pick(&["synced", "synced", "joined-mid-chain", "fresh-genesis"]).to_string(),
         leaf_delta: None,
+        receiver_is_creator: rng.chance(1, 4),
     }
 }
 
@@ -88,7 +94,7 @@ impl Scenario for C06 {
     fn meta(&self) -> Meta {
         Meta {
             level: "exploration",
-            rule: "run = honest history of 2..8/15 blocks (2-5 zero- and non-zero-fee payments each); the block at a seeded position is edited by one of 10 edits that keep it decodable: swap two transactions, replace a transaction by another valid one with the same fee, add / remove a zero-fee transaction, remove every transaction, duplicate the last transaction, insert a slip-less SPV-typed stub (standing for 0 or 1 transactions), change a transaction payload (all without touching the signed header, so the hash is unchanged), re-sign the header with another key, change creator / timestamp / treasury without re-signing. Edited block -> node A, original -> node B, then the rest of the history to both. The receiving nodes are synced from genesis, or joined mid-chain (the parent is the first block they ever saw, so the total supply is not loaded and ledger-dependent checks are off), or fresh (the edited block is block #1 itself). Restart stage (synced receivers, hash-preserving edits): the edited block reaches a node as a sibling of its tip, is stored and written to disk unvalidated, the node restarts from its simulated disk (real start-up) and must not end up with the edited transaction list on its longest chain. Oracles: (1) a block whose hash equals the original's but whose ordered transaction list differs is never accepted (one run in 2500 is the leaf-limit family: the producer's own block also carries a placeholder standing for so many transactions that its merkle tree has exactly MAX_MERKLE_TREE_LEAVES or one leaf fewer - the largest trees a node builds - and a list edit that keeps the leaf total is applied to that block); (2) whenever A and B report the same tip hash their spendable sets are identical; (3) a header edit either changes the hash or the block is rejected. distinct_nontrivial = distinct (edit, block position, depth) where the edit applied and hashes were compared.",
+            rule: "run = honest history of 2..8/15 blocks (2-5 zero- and non-zero-fee payments each); the block at a seeded position is edited by one of 10 edits that keep it decodable: swap two transactions, replace a transaction by another valid one with the same fee, add / remove a zero-fee transaction, remove every transaction, duplicate the last transaction, insert a slip-less SPV-typed stub (standing for 0 or 1 transactions), change a transaction payload (all without touching the signed header, so the hash is unchanged), re-sign the header with another key, change creator / timestamp / treasury without re-signing. Edited block -> node A, original -> node B, then the rest of the history to both. A quarter of the runs let the receiving nodes run under the key of the block's stated creator. The receiving nodes are synced from genesis, or joined mid-chain (the parent is the first block they ever saw, so the total supply is not loaded and ledger-dependent checks are off), or fresh (the edited block is block #1 itself). Restart stage (synced receivers, hash-preserving edits): the edited block reaches a node as a sibling of its tip, is stored and written to disk unvalidated, the node restarts from its simulated disk (real start-up) and must not end up with the edited transaction list on its longest chain. Oracles: (1) a block whose hash equals the original's but whose ordered transaction list differs is never accepted (one run in 2500 is the leaf-limit family: the producer's own block also carries a placeholder standing for so many transactions that its merkle tree has exactly MAX_MERKLE_TREE_LEAVES or one leaf fewer - the largest trees a node builds - and a list edit that keeps the leaf total is applied to that block); (2) whenever A and B report the same tip hash their spendable sets are identical; (3) a header edit either changes the hash or the block is rejected. distinct_nontrivial = distinct (edit, block position, depth) where the edit applied and hashes were compared.",
             real: &["Block::deserialize_from_net/generate/generate_merkle_root/validate", "MerkleTree", "Blockchain::add_block"],
             stubs: &["SimIo", "SimConfig", "vendored ahash"],
             assumptions: &["genesis period >> depth"],
@@ -306,8 +312,12 @@ impl Scenario for C06 {
         let same_hash = gen_ok && edec.hash == orig.hash;
         let txs_differ = tx_digest(&edec) != tx_digest(&orig) || edec.transactions.iter().zip(orig.transactions.iter()).any(|(a, b)| a.data != b.data);
         let header_edit = matches!(plan.edit.as_str(), "resign-with-other-key" | "change-creator" | "change-timestamp" | "change-treasury-field");
-        let mut a = Node::new(&w.cfg, &w.keys[1].clone());
-        let mut b = Node::new(&w.cfg, &w.keys[1].clone());
+        let rkey = if plan.receiver_is_creator { w.keys[0].clone() } else { w.keys[1].clone() };
+        if plan.receiver_is_creator {
+            r.probe("receiver_holds_creator_key");
+        }
+        let mut a = Node::new(&w.cfg, &rkey);
+        let mut b = Node::new(&w.cfg, &rkey);
         for n in [&mut a, &mut b] {
             if fresh_genesis {
                 // nothing: the edited / original block #1 is the first thing the node sees
